@@ -32,6 +32,10 @@ def main():
         mp = os.path.join(sd, "meta.json")
         meta = json.load(open(mp)) if os.path.exists(mp) else {"property": sid.split("-")[0]}
         prop = meta.get("property", sid.split("-")[0])
+        if meta.get("out_of_reach"):
+            rows.append((sid, prop, "OUT-OF-REACH", meta["out_of_reach"][:200]))
+            print(sid, "OUT-OF-REACH", flush=True)
+            continue
         if meta.get("superseded"):
             rows.append((sid, prop, "SUPERSEDED", meta["superseded"][:200]))
             print(sid, "SUPERSEDED", flush=True)
@@ -52,7 +56,7 @@ def main():
             for sid, prop, verdict, res in rows:
                 sigs = res[res.find("["):][:220] if "[" in res else ""
                 f.write(f"| {sid} | {prop} | {verdict} {sigs} |\n")
-    return 0 if all(v in ("DETECTED", "SUPERSEDED") for _, _, v, _ in rows) else 1
+    return 0 if all(v in ("DETECTED", "SUPERSEDED", "OUT-OF-REACH") for _, _, v, _ in rows) else 1
 
 
 if __name__ == "__main__":
